@@ -89,7 +89,7 @@ def _followups(view_dump, rnd, keys, cidx, selfcopy, k=N_FOLLOWUP):
     return [rnd.choice([o for o in ops if o[0] == k0])]
 
 
-def merge_case(args):
+def _merge_case(args):
     """Worker: all C05 checks for ONE (class, source history, follow-up ops). Returns dict(evals, fails=[{kind, what}], ...)."""
     clsname, history, followup = args["cls"], args["history"], args.get("followup")
     root, seed, keys, selfcopy = Path(args["root"]), args["seed"], args["keys"], args["selfcopy"]
@@ -268,8 +268,9 @@ def merge_case(args):
                     dr = dump_tree(ref)
                 finally:
                     ref.close()
-                side = "source-side-deviates-from-single-tree" if da == dr else ("merged-side-deviates-from-single-tree" if db == dr else "both-deviate")
-                ev(False, f"continuation-mismatch:{side}", f"[merged, patch] vs [source files..., patch]: {H.classify_diff(da, db)[1]} ({side}); follow-up patch {used}")
+                # overlay-side: [merged, patch] equals the single tree, the multi-container overlay view does not (C01's subject)
+                side = "overlay-side" if da == dr else ("merged-side" if db == dr else "undetermined-side")
+                ev(False, "continuation-mismatch", f"[{side}] [merged, patch] vs [source files..., patch]: {H.classify_diff(da, db)[1]} ({side}: compared with the single tree for history + accepted follow-up ops); follow-up patch {used}")
             else:
                 ev(True, "continuation-mismatch", "")
         return out
@@ -283,6 +284,16 @@ def merge_case(args):
         H._rm(d)
 
 
+def merge_case(args):
+    """Crash-safe wrapper: a crash of the harness itself becomes a note, never a violation."""
+    try:
+        return _merge_case(args)
+    except Exception:  # noqa
+        import traceback
+
+        return {"cls": args["cls"], "history": args["history"], "followup": args.get("followup"), "evals": 0, "fails": [], "skipped": "harness crash: " + traceback.format_exc()[-600:], "notes": [], "containers": 0}
+
+
 # ---------------------------------------------------------------------------------------------------------------------
 
 FNS = {
@@ -294,8 +305,7 @@ FNS = {
     "not-refused:stub": ["ih5/manifest.py:IH5MFRecord.merge_files"],
     "merged-open-failed": ["ih5/record.py:IH5Record.merge_files", "ih5/manifest.py:IH5MFRecord._fixes_after_merge"],
     "continuation-open-failed": ["ih5/record.py:IH5Record.merge_files", "ih5/record.py:IH5Record._check_ublock"],
-    "continuation-mismatch:source-side": [H.FN_CHILDREN, H.FN["mkgrp"]],
-    "continuation-mismatch": ["ih5/record.py:IH5Record.merge_files", H.FN_CHILDREN],
+    "continuation-mismatch": ["ih5/record.py:IH5Record.merge_files", H.FN_CHILDREN, H.FN["mkgrp"]],
     "merge-failed": ["ih5/record.py:IH5Record.merge_files", "ih5/overlay.py:h5_copy_from_to"],
     "merge-hang": ["ih5/record.py:IH5Record.merge_files", "ih5/overlay.py:h5_copy_from_to"],
 }
@@ -367,11 +377,19 @@ class Collector:
             h, fu, what = self.minimise(res, kind, reopened)
             if kind.startswith(HISTORY_INDEPENDENT):
                 sig = f"c05:{kind}:{res['cls']}"
+            elif kind == "continuation-mismatch" and what.startswith("["):
+                side = what[1 : what.index("]")]  # attribution of the minimal case (see merge_case)
+                sig = f"c05:{kind}:{side}:{res['cls']}:{digest([h, fu])}"
             else:
                 sig = f"c05:{kind}:{res['cls']}:{digest([h, fu])}"
             sigs.append(sig)
             case = {"cls": res["cls"], "history": h, "followup": fu, "kind": kind, "reopened": reopened}
-            rec.check(False, sig, f"[{res['cls']}{', source reopened r' if reopened else ''}] source history {h}" + (f", follow-up patch {fu}" if fu else "") + f": {what}", case=case, fns=_fns(kind))
+            fns = _fns(kind)
+            if ":overlay-side:" in sig:
+                fns = [H.FN["mkgrp"], H.FN_CHILDREN]
+            elif ":merged-side:" in sig:
+                fns = ["ih5/record.py:IH5Record.merge_files", "ih5/overlay.py:h5_copy_from_to"]
+            rec.check(False, sig, f"[{res['cls']}{', source reopened r' if reopened else ''}] source history {h}" + (f", follow-up patch {fu}" if fu else "") + f": {what}", case=case, fns=fns)
 
 
 def _priority(h):
@@ -396,7 +414,7 @@ def run(tier: str, seed: int) -> dict:
     bound_parts = []
     keys = H.KEYS_AB if quick else H.KEYS_ALL
     try:
-        with tmpdir() as root:
+        with tmpdir() as root, pool:  # the pool is terminated before the temp dir is removed
             # does copying a group into its own subtree terminate on this tree?  (C01's finding; only decides
             # whether such operations may occur in source histories / follow-up patches here)
             r = H.run_history([["mkgrp", "a"], ["copy", "a", "a/b"]], root, timeout=3.0, reopen=False)
@@ -408,8 +426,10 @@ def run(tier: str, seed: int) -> dict:
             scn = [(n, h) for n, h in H.SCENARIOS.items() if selfcopy or n not in H.SELFCOPY_SCENARIOS]
             sources = [h for _, h in scn]
             # ---- sources 2: BFS states of the same enumerator (unchecked exploration, only successful operations)
-            bfs_share = 0.35 if quick else 0.15
+            bfs_share = 0.35 if quick else 0.3
             rb = H.bfs(pool, root, H.KEYS_AB, 0 if quick else 1, 4 if quick else 5, 3 if quick else 4, t0 + budget * bfs_share, check=False, selfcopy=selfcopy, seed=seed)
+            if rb["crashes"]:
+                rec.notes.append(f"source enumeration: {len(rb['crashes'])} harness task crashes, first: {rb['crashes'][0][-400:]}")
             cand = [h for h in rb["states"].values() if H.n_commits(h) >= 1 and h[-1][0] != "commit"]
             rnd = base.rng(seed, "c05-sources")
             rnd.shuffle(cand)
